@@ -92,6 +92,7 @@ class Executor:
         self.pac = params_as_constants
         self.log = []
         self.site = 0
+        self.shared_site = None
 
     # ------------------------------------------------------------------ reference ops
     def ref_ops(self, mid, obs_op, relax=False, as_constants=False):
@@ -106,7 +107,7 @@ class Executor:
         o = copy.deepcopy(obs_op)
         o[1] = 0
         if o[0] == "solve":
-            o[2] = {k: v for k, v in o[2].items() if k not in ("fault", "peer", "peers", "r2")}
+            o[2] = {k: v for k, v in o[2].items() if k not in ("fault", "peer", "peers", "r2", "same_site")}
             if relax:
                 o[2]["strict"] = False
         if o[0] == "call":
@@ -445,7 +446,7 @@ class Executor:
         out = {}
         sol = None
         try:
-            sol = self._call_from_fresh_site(P, dict(method=a.get("method", "auto"), strict=bool(a.get("strict", False)), **_solve_kwargs(a)))
+            sol = self._call_from_fresh_site(P, dict(method=a.get("method", "auto"), strict=bool(a.get("strict", False)), **_solve_kwargs(a)), shared=bool(a.get("same_site")))
         except BaseException as e:  # noqa: BLE001 - includes injected KeyboardInterrupt
             if isinstance(e, (KeyboardInterrupt, SystemExit)) and not w.fired:
                 raise
@@ -474,10 +475,18 @@ class Executor:
             rec["ref_relaxed"] = self.ref_ops(op[1], op, relax=True)
         return out
 
-    def _call_from_fresh_site(self, P, kw):
+    def _call_from_fresh_site(self, P, kw, shared=False):
         """P.solve(**kw) issued from a call site of its own (own file name, own globals): every
         solve of a history is a different line of the user's program as far as Python's
         once-per-location warning registry is concerned."""
+        if shared:
+            # the same line of a user's helper function (build a model, solve it) executed again
+            if self.shared_site is None:
+                self.shared_site = (compile("out = P.solve(**kw)", "<user-op-shared>", "exec"), {})
+            code, g = self.shared_site
+            g["P"], g["kw"] = P, kw
+            exec(code, g)
+            return g.pop("out")
         self.site += 1
         g = {"P": P, "kw": kw}
         exec(compile("out = P.solve(**kw)", f"<user-op-{self.site}>", "exec"), g)
